@@ -133,6 +133,7 @@ class ExecCore:
         self.no_contract: set = set()
         self.merge_marks: list = []
         self.nomerge_calls: set = set()
+        self._assigned_spec: dict = {}
         self.deadline = None
         self.notes_global: set = set()
         self.reads_global: set = set()
@@ -434,7 +435,8 @@ class ExecCore:
         asg = self.assigned_attrs(ci).get(name)
         if asg == "init":
             self.unknown_slots.add((ci.short, name))
-            return ("slot", "any")
+            # an attribute the slot table does not know: its container kind is read off the constructor
+            return ("slot", self._assigned_spec.get((ci.qual, name), "any"))
         if asg == "lazy":
             self.unknown_slots.add((ci.short, name))
             return ("optslot", "any")
@@ -741,6 +743,22 @@ class ExecCore:
                                 kind = "init" if fname == "__init__" else "lazy"
                                 if out.get(t.attr) != "init":
                                     out[t.attr] = kind
+                                val = getattr(n, "value", None)
+                                if kind == "init" and val is not None and (key, t.attr) not in self._assigned_spec:
+                                    sp = None
+                                    if isinstance(val, (_ast.List, _ast.ListComp)):
+                                        sp = "list[any]"
+                                    elif isinstance(val, (_ast.Set, _ast.SetComp)) or (
+                                            isinstance(val, _ast.Call) and isinstance(val.func, _ast.Name)
+                                            and val.func.id == "set"):
+                                        sp = "set[any]"
+                                    elif isinstance(val, _ast.Call) and isinstance(val.func, _ast.Name) and \
+                                            val.func.id == "list":
+                                        sp = "list[any]"
+                                    elif isinstance(val, _ast.Constant) and isinstance(val.value, bool):
+                                        sp = "bool"
+                                    if sp:
+                                        self._assigned_spec[(key, t.attr)] = sp
         self._assigned_cache[key] = out
         return out
 
